@@ -10,7 +10,11 @@ and features around bin ends of every level queried with 100-500 Mb spans and wi
 several generators of one FeatureDB kept alive at once (nested / zip / random schedules), databases in which many features
 have no ID attribute and several of those are byte-identical lines (each is a stored feature and must be returned once),
 and 'handles' histories: two FeatureDB objects on one database file, the second one adds (new seqid, existing seqids) and
-deletes features, the first one - never reopened - must answer like a scan of the file's current content.
+deletes features, the first one - never reopened - must answer like a scan of the file's current content; databases of
+flavour 'reversed' in which about a third of the stored features have start > end (insertion sites written start = end + 1,
+origin-spanning features of a circular sequence) - the statement's predicates are plain comparisons and apply verbatim;
+and one 'big' case per run: more than 10 000 features (most of them sharing their (start, end) with others) inside one
+query interval, every one to be returned exactly once, also by a generator consumed slowly between other queries.
 """
 import os
 import random
@@ -50,7 +54,19 @@ RULE = ("feature sets of 300 (quick: 250) features on 2-4 seqids x 3 strands x 5
         "with update() (45% on a brand-new seqid, the others on existing seqids, most of them children of stored or new parent "
         "features) and deletes 0-8 stored ones; after every step A - never reopened, all its generators exhausted - answers "
         "30-50 more queries (all region forms and limit= of the four apis); reference = the file's content at that moment "
-        "read with plain sqlite3")
+        "read with plain sqlite3.  Every 6th database (flavour 'reversed'): ~35% of the features, parent features included, "
+        "are stored with start > end - a site between two bases written start = end + 1 (1001..1000) or a feature through the "
+        "origin of a circular sequence (4500..300; ends also on bin boundaries and beyond 2^29); 2/3 of its queries are placed "
+        "relative to such a feature (within: query end at / around the feature's end or between its end and its start, query "
+        "start at 1 / around its end / around its start; overlap: query start around its end, query end around its start); the "
+        "statement's comparisons on feature.start and feature.end are applied verbatim.  'big' case (one shard per run; thorough: "
+        "every 4th shard): 10 600+ features inside one interval of one seqid, sites of 1-5 records with identical (start, end) "
+        "(exon/CDS/match/...), coordinates recurring at later file positions, 150 features outside the interval, 120 on another "
+        "seqid; 21 queries whose answers hold > 10 000 features (every region form incl. one-sided and seqid omitted, overlap "
+        "and within, all_features(limit=) tuple/string, features_of_type(limit=)) over windows that cut 0-1.5% of the sites at "
+        "either side, compared as id multisets with the scan; then 3 schedules on the same FeatureDB: a large region() "
+        "generator consumed in chunks of 1-3000 with a complete small query between the chunks (2x), two large generators "
+        "consumed alternately (1x)")
 REQUIRED = ["queries executed", "result rows compared", "sql: bin clause present", "sql: bin clause absent",
             "sql: region bin clause with 9..899 bins", "sql: limit bin clause with 9..899 bins", "sql: region within, both bounds in range, no bin clause (>= 900 bins)",
             "sql: limit, no bin clause (>= 900 bins)", "queries with an end >= 2**29", "one-sided queries",
@@ -81,11 +97,26 @@ REQUIRED = ["queries executed", "result rows compared", "sql: bin clause present
             "handles: children(limit=) answers holding features added by the second handle",
             "handles: queries that a deleted feature would have matched (not returned): region",
             "handles: queries that a deleted feature would have matched (not returned): limit="] + \
-           ["handles: such answers, form region/%s" % f for f in ("tuple", "string", "feature", "kw", "start-only", "end-only")]
+           ["handles: such answers, form region/%s" % f for f in ("tuple", "string", "feature", "kw", "start-only", "end-only")] + \
+           ["reversed: features stored with start > end",
+            "reversed: completely_within answers holding a start > end feature whose start lies beyond the query end: region",
+            "reversed: completely_within answers holding a start > end feature whose start lies beyond the query end: limit=",
+            "reversed: overlap answers holding a start > end feature: region",
+            "reversed: overlap answers holding a start > end feature: limit=",
+            "reversed: children(limit=) answers holding a start > end feature",
+            "reversed: parents(limit=) answers holding a start > end feature",
+            "reversed: queries that a start > end feature satisfies in one coordinate only (not returned)",
+            "big: features imported", "big: answers with more than 10 000 features, each returned once: region",
+            "big: answers with more than 10 000 features, each returned once: all_features(limit=)",
+            "big: such answers in which >= 1000 (start, end) pairs are shared by several returned features",
+            "big: large region() generators consumed in chunks with complete queries in between",
+            "big: queries answered between the chunks of a large generator",
+            "big: two large generators consumed alternately"] + \
+           ["big: such answers, form region/%s" % f for f, _ in G.REGION_FORMS]
 REQUIRED_CLASSES = ["region/%s/%s" % (f, w) for f, _ in G.REGION_FORMS for w in ("overlap", "within")] + \
                    ["%s/%s/%s" % (a, f, w) for a in ("all_features", "features_of_type", "children", "parents")
                     for f, _ in G.LIMIT_FORMS for w in ("overlap", "within")] + \
-                   ["interleave/nested", "interleave/schedule", "handles/second handle updates the file"]
+                   ["interleave/nested", "interleave/schedule", "handles/second handle updates the file", "big/one large answer"]
 ASSUMPTIONS = [
     "one bound only: a result R is accepted when {strictly beyond the bound} <= R <= {at or beyond the bound}; for "
     "completely_within the deciding coordinate is the feature's start (only start given) / end (only end given), "
@@ -104,6 +135,11 @@ ASSUMPTIONS = [
     "second object's update()/delete() returned (what update()/delete() must store is C10's; a file content other than "
     "added/deleted is only counted); every generator of the first object is exhausted before the file is changed; children/"
     "parents universes are the level-1 rows of the file's relations table; ids are named only while stored",
+    "stored features with start > end: the statement's comparisons are applied as written (overlap: feature.start <= end and "
+    "feature.end >= start; within: start <= feature.start and feature.end <= end).  NOT judged: region() overlap queries with "
+    "start == end == the start or the end coordinate of such a feature - the unchanged tree returns the feature there (all "
+    "region forms; e.g. feature 1001..1000, region(('c', 1001, 1001)) and region(('c', 1000, 1000))) although the comparisons "
+    "say no, while limit= follows the comparisons; those features may or may not be returned and are counted in a monitor",
 ]
 QUICK_SHARDS = 4
 THOROUGH_SHARDS = 16
@@ -166,6 +202,8 @@ def get_db(ctx, setp):
         if setp.get("flavour"):
             ctx.mon("databases built: flavour '%s'" % setp["flavour"])
         ctx.mon("features imported", len(rows))
+        if setp.get("flavour") == "reversed":
+            ctx.mon("reversed: features stored with start > end", sum(1 for r in rows if r[3] > r[4]))
         _DBS[key] = (db, SET, {k: v[5] for k, v in stored.items()})
         sqltrace.reset()
         contracts.drain()
@@ -257,11 +295,13 @@ def execute(ctx, case):
         return execute_interleave(ctx, case)
     if case["kind"] == "handles":
         return execute_handles(ctx, case)
+    if case["kind"] == "big":
+        return execute_big(ctx, case)
     q = case["query"]
     db, SET, stored_bin = get_db(ctx, case["set"])
     feats = SET["features"]
     uni = M.universe(feats, q["api"], q["id"])
-    lower, upper = M.expected(uni, q["seqid"], q["start"], q["end"], q["within"], q["strand"], q["ft"])
+    lower, upper = expect(ctx, uni, q)
     sqltrace.reset()
     ctx.mon("queries executed")
     ctx.mon("queries: %s %s" % (q["api"], q["form"]))
@@ -301,10 +341,61 @@ def execute(ctx, case):
     return {"expected": len(lower), "touch": touch}
 
 
+UNJUDGED = ("reversed: features not judged (region overlap query with start == end == the start or end coordinate of a "
+            "stored feature with start > end: the unchanged tree returns it, the comparisons say no)")
+
+
+def expect(ctx, uni, q):
+    """(lower, upper) of the statement for query q over the universe uni (M.expected), minus the one sub-case in which the
+    unchanged tree itself leaves the comparisons (see ASSUMPTIONS): those features may be returned or not."""
+    lower, upper = M.expected(uni, q["seqid"], q["start"], q["end"], q["within"], q["strand"], q["ft"])
+    x = q["start"]
+    if q["api"] == "region" and not q["within"] and x is not None and x == q["end"]:
+        odd = [f["id"] for f in uni if f["start"] > f["end"] and x in (f["start"], f["end"])
+               and M.restricted(f, q["seqid"], q["strand"], q["ft"])]
+        if odd:
+            have = set(upper)
+            upper = upper + [i for i in odd if i not in have]
+            ctx.mon(UNJUDGED, len(odd))
+    return lower, upper
+
+
+def observe_reversed(ctx, q, SET, uni, lower):
+    by_id = SET["by_id"]
+    kind = "region" if q["api"] == "region" else "limit="
+    two = q["start"] is not None and q["end"] is not None
+    rev = [by_id[i] for i in lower if by_id[i]["start"] > by_id[i]["end"]]
+    if rev:
+        if q["within"]:
+            if two and any(f["start"] > q["end"] for f in rev):
+                ctx.mon("reversed: completely_within answers holding a start > end feature whose start lies beyond the query "
+                        "end: %s" % kind)
+                ctx.mon("reversed: such answers, form %s/%s" % (q["api"], q["form"]))
+            else:
+                ctx.mon("reversed: completely_within answers holding a start > end feature: %s" % kind)
+        else:
+            ctx.mon("reversed: overlap answers holding a start > end feature: %s" % kind)
+        if q["api"] in ("children", "parents"):
+            ctx.mon("reversed: %s(limit=) answers holding a start > end feature" % q["api"])
+        if not two:
+            ctx.mon("reversed: one-sided answers holding a start > end feature")
+    if two:
+        got = set(lower)
+        a, b = q["start"], q["end"]
+        for f in uni:
+            if f["start"] > f["end"] and f["id"] not in got and M.restricted(f, q["seqid"], q["strand"], q["ft"]):
+                half = (a <= f["start"]) != (f["end"] <= b) if q["within"] else (f["start"] <= b) != (f["end"] >= a)
+                if half:
+                    ctx.mon("reversed: queries that a start > end feature satisfies in one coordinate only (not returned)")
+                    break
+
+
 def observe_class(ctx, q, SET, uni, lower, present):
     """Monitors of the special workload classes (called for queries that agreed with the scan)."""
     kind = "region" if q["api"] == "region" else "limit"
     wo = "within" if q["within"] else "overlap"
+    if SET.get("flavour") == "reversed":
+        observe_reversed(ctx, q, SET, uni, lower)
     other = SET.get("partner", {}).get(q["seqid"])
     if other is not None:
         twin, _ = M.expected(uni, other, q["start"], q["end"], q["within"], q["strand"], q["ft"])
@@ -342,7 +433,7 @@ def observe_class(ctx, q, SET, uni, lower, present):
 def judged(ctx, case, what, q, feats, got, alone):
     """One generator of an interleave case: against the same call consumed alone and against the scan."""
     uni = M.universe(feats, q["api"], q["id"])
-    lower, upper = M.expected(uni, q["seqid"], q["start"], q["end"], q["within"], q["strand"], q["ft"])
+    lower, upper = expect(ctx, uni, q)
     ctx.mon("interleaved: generators consumed while another generator of the same FeatureDB was alive")
     ctx.mon("interleaved: generators of %s" % q["api"])
     ctx.mon("result rows compared", len(got))
@@ -406,10 +497,15 @@ def execute_interleave(ctx, case):
             alone = [f.id for f in alone_feats]
             alone_inner = {}
             for f in alone_feats:
+                if int(f.start) > int(f.end):
+                    continue               # a query interval with start > end is outside the statement's quantifier
                 alone_inner[f.id] = call(db, inner_query(inner, f))
             outer, inner_got, inner_qs = [], {}, {}
             for f in open_query(db, q):
                 outer.append(f.id)
+                if int(f.start) > int(f.end):
+                    ctx.mon("interleaved: inner queries not made (the yielded feature has start > end: not a query interval)")
+                    continue
                 qi = inner_query(inner, f)
                 inner_qs[f.id] = qi
                 g = []
@@ -489,7 +585,7 @@ def execute_handles(ctx, case):
                 ctx.mon("handles: queries naming a feature that is not stored at that moment (not executed)")
                 continue
             uni = M.universe(feats, q["api"], q["id"])
-            lower, upper = M.expected(uni, q["seqid"], q["start"], q["end"], q["within"], q["strand"], q["ft"])
+            lower, upper = expect(ctx, uni, q)
             sqltrace.reset()
             ctx.mon("queries executed")
             ctx.mon("handles: queries answered by the first handle")
@@ -606,6 +702,144 @@ def execute_handles(ctx, case):
     return useful
 
 
+# ---------------------------------------------------------------------------------------------------------
+def execute_big(ctx, case):
+    """kind "big": {"seed"}.  G.make_big(seed) -> a database with more than 10 000 features inside one interval (sites of
+    several records with identical coordinates); G.big_queries(seed) -> queries with LARGE answers in every form, and
+    schedules in which a large generator is consumed slowly while other queries run on the same FeatureDB.  Every answer is
+    compared with the scan as a multiset of ids.  Returns True when large answers were seen and everything agreed."""
+    import gffutils
+    from gvmon.run import Inconclusive
+
+    BIG = G.make_big(case["seed"])
+    feats = BIG["features"]
+    by_id = {f["id"]: f for f in feats}
+    qs, slow = G.big_queries(case["seed"], BIG)
+    try:
+        db = gffutils.create_db(BIG["text"], ":memory:", from_string=True)
+        rows = db.conn.execute("SELECT id, seqid, featuretype, start, end, strand FROM features").fetchall()
+    except Exception as ex:
+        raise Inconclusive("big: building the database failed: %r" % (ex,))
+    if {r[0]: tuple(r)[1:] for r in rows} != {f["id"]: (f["seqid"], f["featuretype"], f["start"], f["end"], f["strand"])
+                                               for f in feats}:
+        db.conn.close()
+        raise Inconclusive("big: the imported feature set differs from the model (see C01)")
+    ctx.mon("big: databases built")
+    ctx.mon("big: features imported", len(rows))
+    sqltrace.reset()
+    contracts.drain()
+    ok_all, large = True, 0
+
+    def differs(what, q, got, lower, upper, extra=None):
+        """Report (and return True) when the answer `got` to q is not the scan's."""
+        ctx.mon("result rows compared", len(got))
+        bad = M.judge(got, lower, upper)
+        if not bad:
+            return False
+        coords = Counter((by_id[i]["start"], by_id[i]["end"]) for i in got if i in by_id)
+        detail = {"why": "large answer (%s): %s %s result differs from the full scan: %d returned, %d expected, %d missing, "
+                         "%d unexpected, %d returned twice" % (what, q["api"], "completely_within" if q["within"] else "overlap",
+                                                              len(got), len(lower), len(bad["missing"]), len(bad["unexpected"]),
+                                                              len(bad["returned twice"])),
+                  "query": describe(q), "n_got": len(got), "n_expected": len(lower),
+                  "missing features whose (start, end) is shared with a returned feature":
+                      sum(1 for i in bad["missing"] if coords.get((by_id[i]["start"], by_id[i]["end"]))),
+                  "big": {k: BIG[k] for k in ("seqid", "lo", "hi", "inside")}}
+        for k, ids in bad.items():
+            detail[k] = [[i, by_id[i]["seqid"], by_id[i]["start"], by_id[i]["end"], by_id[i]["featuretype"]]
+                         for i in ids[:6] if i in by_id]
+        if extra:
+            detail.update(extra)
+        report(ctx, case, "big:" + what + ":" + ("region" if q["api"] == "region" else "limit="), detail)
+        return True
+
+    try:
+        for q in qs:
+            lower, upper = expect(ctx, feats, q)
+            ctx.mon("queries executed")
+            ctx.mon("queries: %s %s" % (q["api"], q["form"]))
+            try:
+                got = call(db, q)
+            except Exception as ex:
+                report(ctx, case, "big raised", {"why": "large answer: query raised %s" % (repr(ex)[:300],), "query": describe(q)})
+                ok_all = False
+                continue
+            if differs("consumed at once", q, got, lower, upper):
+                ok_all = False
+                continue
+            if len(lower) > 10000:
+                large += 1
+                api = "region" if q["api"] == "region" else q["api"] + "(limit=)"
+                ctx.mon("big: answers with more than 10 000 features, each returned once: %s" % api)
+                ctx.mon("big: such answers, form %s/%s" % (q["api"], q["form"]))
+                ctx.mon("big: such answers, %s" % ("completely_within" if q["within"] else "overlap"))
+                shared = sum(1 for n in Counter((by_id[i]["start"], by_id[i]["end"]) for i in lower).values() if n > 1)
+                if shared >= 1000:
+                    ctx.mon("big: such answers in which >= 1000 (start, end) pairs are shared by several returned features")
+            else:
+                ctx.mon("big: answers with at most 10 000 features")
+        for sch in slow:
+            r = random.Random(sch["chunks"])
+            big, second = sch["big"], sch["second"]
+            lo_b, up_b = expect(ctx, feats, big)
+            lo_s, up_s = expect(ctx, feats, second)
+            ctx.mon("queries executed", 2)
+            try:
+                if sch["mode"] == "slow":
+                    g, got, between, done, bad_between = open_query(db, big), [], 0, False, False
+                    while not done:
+                        for _ in range(r.choice([1, 2, 10, 500, 3000, r.randrange(1, 3001)])):
+                            try:
+                                got.append(next(g).id)
+                            except StopIteration:
+                                done = True
+                                break
+                        s_got = call(db, second)
+                        between += 1
+                        if differs("complete query between the chunks of a large generator", second, s_got, lo_s, up_s,
+                                   {"rows of the large generator consumed so far": len(got)}):
+                            bad_between = True
+                            break
+                    if not bad_between:
+                        got.extend(f.id for f in g)
+                    ctx.mon("big: queries answered between the chunks of a large generator", between)
+                    if differs("generator consumed in chunks, complete queries in between", big, got, lo_b, up_b,
+                               {"queries in between": between, "query in between": describe(second)}) or bad_between:
+                        ok_all = False
+                    elif len(lo_b) > 10000 and between >= 2:
+                        ctx.mon("big: large region() generators consumed in chunks with complete queries in between")
+                else:
+                    gens = [open_query(db, big), open_query(db, second)]
+                    got = [[], []]
+                    live = [0, 1]
+                    while live:
+                        for i in list(live):
+                            for _ in range(r.choice([1, 1, 5, 100, 1000])):
+                                try:
+                                    got[i].append(next(gens[i]).id)
+                                except StopIteration:
+                                    live.remove(i)
+                                    break
+                    d1 = differs("two large generators consumed alternately", big, got[0], lo_b, up_b)
+                    d2 = differs("two large generators consumed alternately", second, got[1], lo_s, up_s)
+                    if d1 or d2:
+                        ok_all = False
+                    elif len(lo_b) > 10000 and len(lo_s) > 10000:
+                        ctx.mon("big: two large generators consumed alternately")
+            except Exception as ex:
+                report(ctx, case, "big raised", {"why": "large answer (%s schedule) raised %s" % (sch["mode"], repr(ex)[:300]),
+                                                 "query": describe(big), "second": describe(second)})
+                ok_all = False
+    finally:
+        try:
+            db.conn.close()
+        except Exception:
+            pass
+        for v in contracts.drain():
+            report(ctx, case, "contract " + v.get("contract", "?"), v)
+    return ok_all and large > 0
+
+
 def gen_handles(rng, n):
     """A 'handles' case: small feature set, an update by a second handle, one round of queries per state of the file.
     The queries are drawn against the union of everything that is ever stored, so that round 0 already names the seqid
@@ -700,7 +934,7 @@ def diagnose(q, uni, got, stored_bin):
         api, "completely_within" if q["within"] else "overlap", q["form"])
 
 
-FLAVOURS = [None, "case", None, "binends", "idless"]
+FLAVOURS = [None, "case", "reversed", None, "binends", "idless"]
 
 
 def gen_interleave(rng, SET, setp):
@@ -742,7 +976,7 @@ def gen_interleave(rng, SET, setp):
 def run(ctx):
     rng = ctx.rng
     quick = ctx.tier == "quick"
-    nsets = 5 if quick else 20
+    nsets = 6 if quick else 24
     nq = ctx.budget(26000, 16 * 20 * 3600) // nsets
     n = 250 if quick else 300
     # two FeatureDB objects on one database file: the second one changes the file, the first one answers
@@ -751,6 +985,11 @@ def run(ctx):
         useful = execute(ctx, case)
         ctx.case((case["set"]["seed"], case["upd"], case["b_early"]), bool(useful), cls="handles/second handle updates the file",
                  sample={"set": case["set"], "upd": case["upd"], "rounds": [len(r) for r in case["rounds"]]})
+    if ctx.shard % 4 == 0:
+        # one LARGE answer (costs ~10 s, hence one shard of four)
+        case = {"kind": "big", "seed": rng.randrange(1 << 30)}
+        useful = execute(ctx, case)
+        ctx.case(("big", case["seed"]), bool(useful), cls="big/one large answer", sample=case)
     first = rng.randrange(len(FLAVOURS))
     for si in range(nsets):
         setp = {"seed": rng.randrange(1 << 30), "n": n}
@@ -772,6 +1011,8 @@ def run(ctx):
             mode = None
             if flavour == "binends":
                 mode = rng.choice(["wide", "wide", "binend", "binend", None])
+            elif flavour == "reversed":
+                mode = rng.choice(["reversed", "reversed", None])
             q = G.gen_query(rng, SET, mode)
             case = {"kind": "query", "set": setp, "query": q}
             r = execute(ctx, case)
@@ -812,8 +1053,14 @@ MANIFEST = {
             "children/parents(limit=). 'handles' cases open two FeatureDB objects on one database file: the first answers "
             "queries (also on a seqid that does not exist yet), the second adds features on a brand-new seqid and on existing "
             "ones with update() and deletes some, then the first - not reopened - must answer exactly like a scan of the file's "
-            "current content. Held = no executed query disagreed.",
+            "current content. Databases of flavour 'reversed' store about a third of their features with start > end (insertion "
+            "sites start = end + 1, origin-spanning features): the statement's comparisons are applied as written, through "
+            "region and limit= alike. One 'big' case per run holds more than 10 000 features, most of them sharing their "
+            "(start, end) with others, inside one interval: every form of region() and all_features(limit=) must return every "
+            "one exactly once, also when the generator is consumed in chunks between other queries on the same FeatureDB. "
+            "Held = no executed query disagreed.",
     "note": "Trusted: the scan in gvmon/models/C06.py, sqlite3. One-sided queries are judged by a sandwich (strictly beyond <= "
             "result <= at or beyond). Not covered: queries without any bound, empty featuretype collections, hierarchies deeper "
-            "than one level under limit=.",
+            "than one level under limit=. Not judged: region() overlap queries with start == end == an end coordinate of a "
+            "stored feature with start > end (the unchanged tree returns that feature; counted in a monitor).",
 }
